@@ -26,9 +26,14 @@ class ElementProgram:
         if tokenizer is None:
             tokenizer = self.tokenizers[mode]
         tokens = tokenizer(source, filename)
-        parser = ElementParser(
-            tokens, self.DEFAULT_NAMESPACES, self.restricted_namespace
-        )
+        if mode == "text":
+            # A text template has no markup: every token is plain text,
+            # also when it begins with '<'.
+            parser = (("text", (token, )) for token in tokens)
+        else:
+            parser = ElementParser(
+                tokens, self.DEFAULT_NAMESPACES, self.restricted_namespace
+            )
 
         self.body = []
 
